@@ -162,9 +162,13 @@ def effects_under(fn, stmts, val, env=None, keep=(), loops='stop', nm=None, open
         while g is not None and g['k'] in ('ImplicitCastExpr', 'ParenExpr') and kids(g):
             g = kids(g)[-1]
         gr = (g.get('ref') or {}) if g is not None else {}
-        if gr.get('k') in ('Global', 'StaticMember') and fn.prog is not None:
+        if gr.get('k') in ('Global', 'StaticMember', 'Local') and fn.prog is not None:
             # a constant table: the rows are its compile-time value; a structured binding names the columns
-            gv = fn.prog.vars.get(gr['n']) or {}
+            if gr['k'] == 'Local':
+                ld = [x for x in fn.all_nodes() if x['k'] == 'VarDecl' and x.get('id') == gr.get('id')]
+                gv = dict(ld[0], const=('const' in (ld[0].get('t') or '') or 'constexpr' in (ld[0].get('t') or ''))) if len(ld) == 1 else {}
+            else:
+                gv = fn.prog.vars.get(gr['n']) or {}
             rows = gv.get('val')
             tq = var[0].get('t') or ''
             if not isinstance(rows, list) or not gv.get('const') or ('&' in tq and 'const' not in tq):
